@@ -156,6 +156,13 @@ func sameValD(a, b ssa.Value, d int) bool {
 		if y, ok := b.(*ssa.Extract); ok {
 			return x.Index == y.Index && x.Tuple == y.Tuple
 		}
+	case *ssa.Lookup:
+		// m[k] read twice from the same map under the same key (`rnls[name]` spelled out at
+		// two call sites): the same element as long as the map is not updated in between,
+		// which holds for maps that are only filled before they are read
+		if y, ok := b.(*ssa.Lookup); ok && x.CommaOk == y.CommaOk {
+			return sameValD(x.X, y.X, d+1) && sameValD(x.Index, y.Index, d+1)
+		}
 	case *ssa.UnOp:
 		if y, ok := b.(*ssa.UnOp); ok && x.Op == y.Op && x.Op == token.MUL {
 			// loads of the same single-assignment cell / same address with no store analysis:
